@@ -29,6 +29,7 @@ REQUIRED_COUNTERS = {
     'lru_invariant_checks': 10000,
     'snapshot_crosscheck_sequences': 16,
     'multi_workflow_webhook_cells': 80,
+    'recency_polls_that_must_stay_green': 100,  # small caches, LRU order
 }
 SHARD_TIMEOUT = {'quick': 900, 'thorough': 3600}
 
@@ -1065,6 +1066,82 @@ def run_cache(spec, acc):
 
 
 # ===========================================================================
+# Part 2c - recency: an entry that keeps being used is not the one evicted
+# ===========================================================================
+RECENCY_COMMITS = tuple('c0ffee00000000000000000000000000000001%02d' % i
+                        for i in range(6))
+
+
+def run_recency(acc, seed, tier):
+    """Small caches (2, 3 entries) and more commits than entries.  The
+    statement is about a LEAST-RECENTLY-USED cache: a green entry may only be
+    forgotten once `size` distinct other commits were used under the same key
+    since its own last use.  Sound under-approximation of 'use of c': a poll
+    of c (always a cache look-up) and the webhook that first stores c green;
+    every operation on another commit counts as a use of that commit."""
+    nhist = 1200 if tier == 'thorough' else 300
+    for host in ('bitbucket', 'github'):
+        h = Harness(host)
+        key = h.keys[0]
+        for size in (2, 3):
+            commits = RECENCY_COMMITS[:size + 2]
+            rng = random.Random('%s/recency/%s/%d' % (seed, host, size))
+            for n in range(nhist):
+                h.reset(size)
+                green = {}        # sha -> True once certainly cached green
+                since = {}        # sha -> set of other shas used since
+                ops = []
+                for _ in range(rng.randrange(6, 16)):
+                    sha = rng.choice(commits)
+                    if rng.random() < 0.35:
+                        s = rng.choice('SSF')
+                        ops.append(('webhook', sha[-2:], s))
+                        h.set_world(sha, key, s)
+                        route, headers, body = h.webhook_request(sha, key, s)
+                        h.http.post(route, data=json.dumps(body).encode(),
+                                    headers=headers)
+                        h.bert_e.task_queue.queue.clear()
+                        for other in since:
+                            if other != sha:
+                                since[other].add(sha)
+                        if s == 'S' and not green.get(sha):
+                            green[sha] = True
+                            since[sha] = set()
+                        continue
+                    s = rng.choice('SFF')
+                    ops.append(('poll', sha[-2:], s))
+                    h.set_world(sha, key, s)
+                    certain = green.get(sha) and len(since[sha]) < size
+                    answer = h.repo.get_build_status(sha, key)
+                    acc.evals += 1
+                    acc.count('recency_polls')
+                    if green.get(sha) and s != 'S':
+                        acc.count('recency_polls_of_a_green_commit_now_red')
+                        if certain:
+                            acc.count('recency_polls_that_must_stay_green')
+                            acc.nontrivial('rec:%s%d:%d' % (host[0], size, n))
+                    if certain and answer != 'SUCCESSFUL':
+                        acc.violation(
+                            'cache-forgets-a-recently-used-green-entry-%s'
+                            % host, 'host=%s cache size=%d: after %r the '
+                            'green commit %s (used more recently than all but '
+                            '%d other commit(s)) is answered %s' % (
+                                host, size, ops, sha[-2:], len(since[sha]),
+                                answer),
+                            {'part': 'recency', 'host': host, 'size': size,
+                             'ops': ops})
+                    for other in since:
+                        if other != sha:
+                            since[other].add(sha)
+                    if answer == 'SUCCESSFUL':
+                        green[sha] = True
+                        since[sha] = set()
+                    else:
+                        green.pop(sha, None)
+                        since.pop(sha, None)
+
+
+# ===========================================================================
 # driver interface
 # ===========================================================================
 def plan(tier, seed):
@@ -1080,6 +1157,8 @@ def run_shard(spec, acc):
         run_cache(spec, acc)
         if spec['shard'] == 1:
             run_multi_workflow(acc)
+        if spec['shard'] == 2:
+            run_recency(acc, spec['seed'], spec['tier'])
 
 
 def finalize(acc, tier, seed):
@@ -1091,6 +1170,8 @@ def replay(w, acc):
     logging.disable(logging.CRITICAL)
     if w.get('part') == 'multi-workflow':
         run_multi_workflow(acc)
+    elif w.get('part') == 'recency':
+        run_recency(acc, os.environ.get('VERIF_SEED', '1'), 'quick')
     elif w.get('part') == 'aggregation':
         shapes = [tuple(s) for s in w['runs']]
         env = AggEnv(shapes)
